@@ -130,14 +130,15 @@ theorem dec_sparse (fuel : Nat) (m : List (String × Json)) (pn : Option String)
     (hbins : bm.mapM (sparseItem fuel bt bn) = some bins)
     (hnt : Json.get? "nanflow:type" m = some (.str nt)) (hjn : Json.get? "nanflow" m = some jn)
     (hnf : decodeFrag fuel nt jn none = some nf)
-    (hwpos : 0 < width) (hk : isKnownType bt = true) :
+    (hwpos : 0 < width) (hk : isKnownType bt = true)
+    (hnd : (bins.map (·.1)).Nodup) :
     decodeFrag (fuel+1) "SparselyBin" (.obj m) pn =
       some (.node (.sparse (deadQty (resolveName n pn)) width origin bt bn) e .unit none
               ((.nanflow, nf) :: bins.foldl (fun acc p => insertK p.1 p.2 acc) [])) := by
   simp only [decodeFrag, h1, h2, h3, hw, ho, hbt, hbn, hb, hnt, hjn]
   simp [hnf, hwpos, hk, Json.toRat?]
   rw [mapM_congr_fun bm _ (sparseItem fuel bt bn) ?_, hbins]
-  · cases n <;> rfl
+  · cases n <;> simp [hnd, resolveName]
   · intro x; simp [sparseItem]
 
 def centralItem (fuel : Nat) (bt : String) (bn : Option String) (x : Json) : Option (Key × Agg) :=
